@@ -111,20 +111,26 @@ Definition zwf (n : nat) (z : zone) : Prop :=
 Lemma zwf_zdim n z : zwf n z -> zdim n z.
 Proof. destruct z; simpl; auto. intros [S _]. exact S. Qed.
 
+(* restriction to the first n nodes keeps closure *)
+Lemma closed_tab n f : closed f -> closed (mget (tab n f)).
+Proof.
+  intros C i j k. rewrite !mget_tab. specialize (C i j k).
+  destruct (i <? n)%nat, (j <? n)%nat, (k <? n)%nat; simpl; auto;
+    try (destruct (f i k); exact I); try (destruct (f i j); exact I).
+Qed.
+
+Lemma diag0_tab n f : (forall i, f i i = Some 0) -> diag0 n (mget (tab n f)).
+Proof.
+  intros D i Hi. rewrite mget_tab. apply Nat.ltb_lt in Hi. rewrite Hi. simpl. apply D.
+Qed.
+
 (* ------------------------------------------------------------------ top *)
 Lemma z_top_wf n : zwf n (z_top n).
 Proof.
   simpl. split; [apply tab_support|]. split.
-  - intros i Hi. rewrite mget_tab. apply Nat.ltb_lt in Hi. rewrite Hi. simpl.
-    rewrite Nat.eqb_refl. reflexivity.
-  - intros i j k. rewrite !mget_tab.
-    destruct ((i <? n) && (j <? n))%nat eqn:E1; [|destruct (if ((i <? n) && (k <? n))%nat then _ else _), (if ((k <? n) && (j <? n))%nat then _ else _); simpl; auto].
-    destruct (Nat.eqb_spec i j).
-    + subst. apply andb_true_iff in E1. destruct E1 as [E1 _]. rewrite E1. simpl.
-      rewrite (Nat.eqb_sym k j). destruct ((k <? n)%nat); simpl; auto.
-      destruct (Nat.eqb_spec j k); simpl; auto. lia.
-    + destruct ((i <? n) && (k <? n))%nat, ((k <? n) && (j <? n))%nat; simpl; auto.
-      destruct (Nat.eqb_spec i k), (Nat.eqb_spec k j); simpl; auto. congruence.
+  - apply diag0_tab. intros i. rewrite Nat.eqb_refl. reflexivity.
+  - apply closed_tab. intros i j k.
+    destruct (Nat.eqb_spec i j), (Nat.eqb_spec i k), (Nat.eqb_spec k j); simpl; auto; try lia; congruence.
 Qed.
 
 Lemma z_top_gamma n s : gamma (z_top n) s.
